@@ -76,7 +76,7 @@ def sh(cmd, timeout, cwd=None, inp=None):
 
 def make_coqproject():
     files = sorted(glob.glob(os.path.join(COQ, "theories", "**", "*.v"), recursive=True))
-    rel = [os.path.relpath(f, COQ) for f in files]
+    rel = [os.path.relpath(f, COQ) for f in files if not os.path.basename(f).startswith("_")]   # not tools/goal.sh's scratch file
     text = open(os.path.join(COQ, "_CoqProject.in")).read() + "\n".join(rel) + "\n"
     path = os.path.join(COQ, "_CoqProject")
     old = open(path).read() if os.path.exists(path) else None
